@@ -275,6 +275,7 @@ func stateLoopOK(p *Prog, f *ssa.Function, l *Loop) (bool, string) {
 	if cs.err != "" {
 		return false, cs.err
 	}
+	var allProgress []string
 	for _, latch := range l.Latch {
 		progress := ""
 		for b := range l.Blocks {
@@ -316,9 +317,13 @@ func stateLoopOK(p *Prog, f *ssa.Function, l *Loop) (bool, string) {
 		if progress == "" {
 			return false, fmt.Sprintf("an iteration can reach the back edge at block %d without inserting into %s: the loop can spin forever", latch.Index, field)
 		}
-		return true, fmt.Sprintf("condition reads len(%s); every continuing iteration %s", field, progress)
+		allProgress = append(allProgress, progress)
 	}
-	return false, "no back edge"
+	if len(allProgress) == 0 {
+		return false, "no back edge"
+	}
+	// (every back edge was examined: one that needs no insertion fails above)
+	return true, fmt.Sprintf("condition reads len(%s); every continuing iteration %s", field, allProgress[0])
 }
 
 // returnsTrueOnlyAfterInsert: every return of g whose (single, bool) result may be true is dominated
